@@ -40,6 +40,7 @@ func (f *Frame) instr(ins ssa.Instruction, st *State) bool {
 			lv := &LVal{Kind: lvElem, Heap: un.elemHeap(xt.Elem()), Ref: SBase(s), Idx: un.define("i", Add(SOff(s), idx)), Root: xt.Elem(), Typ: xt.Elem()}
 			un.assume(st, Ix(lv.Idx))
 			un.heapInit(lv.Heap, ArrSort(SInt, ArrSort(SInt, u.SortOf(xt.Elem()))))
+			lv.G = f.val(x.X, st).G
 			f.vals[x] = Val{LV: lv, Go: x.Type()}
 		case *types.Pointer:
 			at := xt.Elem().Underlying().(*types.Array)
@@ -69,6 +70,7 @@ func (f *Frame) instr(ins ssa.Instruction, st *State) bool {
 	case *ssa.Store:
 		lv := f.addr(x.Addr, st)
 		f.nilCheck(lv, st, x, x.Pos())
+		f.needLock(f.guardOf(lv), 2, st, x, "write of "+lvDesc(lv))
 		v := f.val(x.Val, st)
 		if v.T.S == "" {
 			if v.Clo != nil {
@@ -153,6 +155,7 @@ func (f *Frame) instr(ins ssa.Instruction, st *State) bool {
 		k := f.term(x.Key, st)
 		v := f.term(x.Value, st)
 		f.safety(st, "nilmap", x, Neq(m, IntLit(0)))
+		f.needLock(f.val(x.Map, st).G, 2, st, x, "map update")
 		f.mapStore(x.Map.Type(), m, k, &v, st)
 	case *ssa.Range:
 		f.rangeStart(x, st)
@@ -262,6 +265,7 @@ func (f *Frame) alloc(x *ssa.Alloc, st *State) {
 		return
 	}
 	r := un.allocRef(st, "new_"+x.Comment)
+	un.freshRefs[r.S] = true
 	if _, ok := el.Underlying().(*types.Struct); ok {
 		lv := &LVal{Kind: lvObj, Ref: r, Root: el, Typ: el}
 		un.writeLV(lv, st, u.Zero(u.SortOf(el)))
@@ -299,9 +303,11 @@ func (f *Frame) unop(x *ssa.UnOp, st *State) {
 		}
 		lv := f.addr(x.X, st)
 		f.nilCheck(lv, st, x, x.Pos())
+		g := f.guardOf(lv)
+		f.needLock(g, 1, st, x, "read of "+lvDesc(lv))
 		v := un.define(x.Name(), un.readLV(lv, st))
 		un.assume(st, un.typeFacts(x.Type(), v, st, 0))
-		f.vals[x] = Val{T: v, Go: x.Type()}
+		f.vals[x] = Val{T: v, Go: x.Type(), G: g}
 	case token.NOT:
 		f.vals[x] = Val{T: Not(f.term(x.X, st)), Go: x.Type()}
 	case token.SUB:
@@ -648,6 +654,7 @@ func (f *Frame) lookup(x *ssa.Lookup, st *State) {
 	mt := x.X.Type().Underlying().(*types.Map)
 	m := f.term(x.X, st)
 	k := f.term(x.Index, st)
+	f.needLock(f.val(x.X, st).G, 1, st, x, "map lookup")
 	dn, vn := un.mapHeaps(x.X.Type())
 	ks, vs := u.SortOf(mt.Key()), u.SortOf(mt.Elem())
 	d := un.H(st, dn, ArrSort(SInt, ArrSort(ks, SBool)))
@@ -691,7 +698,8 @@ func (f *Frame) rangeStart(x *ssa.Range, st *State) {
 		f.ranges = map[ssa.Value]string{}
 	}
 	f.ranges[x] = key
-	f.vals[x] = Val{T: f.term(x.X, st), Go: x.X.Type()}
+	f.needLock(f.val(x.X, st).G, 1, st, x, "map range")
+	f.vals[x] = Val{T: f.term(x.X, st), Go: x.X.Type(), G: f.val(x.X, st).G}
 }
 
 func (f *Frame) rangeNext(x *ssa.Next, st *State) {
@@ -701,6 +709,7 @@ func (f *Frame) rangeNext(x *ssa.Next, st *State) {
 	mt := rg.X.Type().Underlying().(*types.Map)
 	key := f.ranges[rg]
 	m := f.vals[rg].T
+	f.needLock(f.vals[rg].G, 1, st, x, "map range step")
 	ks, vs := u.SortOf(mt.Key()), u.SortOf(mt.Elem())
 	dn, vn := un.mapHeaps(rg.X.Type())
 	d := Select(un.H(st, dn, ArrSort(SInt, ArrSort(ks, SBool))), m)
@@ -760,4 +769,62 @@ func (f *Frame) selectInstr(x *ssa.Select, st *State) {
 		}
 	}
 	f.vals[x] = Val{Tup: tup}
+}
+
+// guardOf: the lock that guards location lv (a `guarded T.f by mtx` declaration), if any.
+func (f *Frame) guardOf(lv *LVal) *guard {
+	if lv.G != nil {
+		return lv.G
+	}
+	if lv.Kind != lvObj || len(lv.Path) == 0 {
+		return nil
+	}
+	if f.un.freshRefs[lv.Ref.S] {
+		return nil // object allocated by this very function: not shared yet
+	}
+	si := f.un.sinfo(lv.Root)
+	fld := si.fields[lv.Path[0]]
+	mtx, ok := f.un.eng.guards[f.un.fieldHeap(lv.Root, fld.name)]
+	if !ok {
+		return nil
+	}
+	mi := si.fieldIndex(mtx)
+	if mi < 0 {
+		return nil
+	}
+	ml := &LVal{Kind: lvObj, Ref: lv.Ref, Root: lv.Root, Path: []int{mi}, Typ: si.fields[mi].typ}
+	hn, key := f.un.lockHeap(ml)
+	return &guard{heap: hn, key: key, what: TypeKey(lv.Root) + "." + fld.name + " (guarded by " + mtx + ")"}
+}
+
+// needLock: obligation that the guard is held (level 1 = shared, 2 = exclusive).
+func (f *Frame) needLock(g *guard, level int, st *State, at ssa.Instruction, what string) {
+	if g == nil || f.pure {
+		return
+	}
+	un := f.un
+	cur := Select(un.H(st, g.heap, ArrSort(SInt, SInt)), g.key)
+	goal := Ge(cur, IntLit(1))
+	if level == 2 {
+		goal = Eq(cur, IntLit(2))
+	}
+	pos := at.Pos()
+	if !pos.IsValid() {
+		pos = f.nearPos(at)
+	}
+	need := "shared"
+	if level == 2 {
+		need = "exclusive"
+	}
+	un.oblige(st, "guard", what+": "+g.what+" needs the "+need+" lock", pos, goal, false)
+}
+
+func lvDesc(lv *LVal) string {
+	switch lv.Kind {
+	case lvObj:
+		return "field of " + TypeKey(lv.Root)
+	case lvElem:
+		return "element of " + lv.Heap
+	}
+	return "location"
 }
